@@ -709,14 +709,30 @@ func (in *Interp) selectStmt(s *ast.SelectStmt, st *State, fr *frame, c ctl, nex
 			hasDefault = true
 		}
 	}
+	var all []string
+	for _, cl := range s.Body.List {
+		switch comm := cl.(*ast.CommClause).Comm.(type) {
+		case nil:
+			all = append(all, "default")
+		case *ast.SendStmt:
+			all = append(all, "send "+exprString(comm.Chan))
+		case *ast.ExprStmt:
+			all = append(all, "recv "+exprString(comm.X))
+		case *ast.AssignStmt:
+			if len(comm.Rhs) == 1 {
+				all = append(all, "recv "+exprString(comm.Rhs[0]))
+			}
+		}
+	}
 	for _, cl := range s.Body.List {
 		cc := cl.(*ast.CommClause)
 		ns := st.clone()
 		in.countPath()
 		sym := &Sym{Kind: "select", Pos: cc.Pos()}
 		if hasDefault {
-			sym.Extra = "nonblocking"
+			sym.Extra = " nonblocking"
 		}
+		sym.Extra += " of[" + strings.Join(all, "|") + "]"
 		switch comm := cc.Comm.(type) {
 		case nil:
 			sym.Name = "default"
